@@ -176,6 +176,23 @@ CHECKS = {
         technique="TLA+ error-propagation model (TLC exhaustive) + model-generated histories x enumerated I/O faults on the code + TLC trace monitor",
         design_ref="DESIGN.md section 5 C14",
     ),
+    "C15": dict(
+        level="model_checking",
+        text="AsyncPages.tla transcribes the caller and the readPages goroutine of the asynchronous page reader, one "
+             "action per channel operation; TLC checks for all interleavings that results are the synchronous reader's, "
+             "pages are delivered or released exactly once, nothing deadlocks, and (under strong fairness on the select "
+             "alternatives) ReadPage and Close return; LazyPublish.tla and RowGroups.tla do the same for the CAS-published "
+             "indexes and for concurrently filled row groups. Behaviours generated by TLC are replayed on the real "
+             "asyncPages over a harness-served underlying Pages, steered along the behaviour's visible events, and every "
+             "recorded trace is validated against the model with the channel steps left for TLC to place (AsyncTrace.tla). "
+             "Documented usage patterns (shared File readers, independent writers/readers/buffers, one goroutine per "
+             "ColumnWriter, concurrent row groups, async read mode, shared codecs) run serially and concurrently in a "
+             "race-detector build; ConcMon.tla requires equal results, one published pointer, no panic, hang or race.",
+        note="Interleavings inside the library other than the async protocol are whatever the Go scheduler produces "
+             "(several GOMAXPROCS, gated readers for the publication race); race freedom is observed, not proved.",
+        technique="TLA+ protocol models (TLC exhaustive, safety + liveness) + TLC-generated behaviours replayed on the code + TLC trace validation with unlogged steps + TLC verdict monitor over race-detector runs",
+        design_ref="DESIGN.md section 5 C15",
+    ),
     "C16": dict(
         level="model_checking",
         text="Ownership.tla models pooled page buffers, release versus detach when a reader leaves a page (also in "
